@@ -557,6 +557,7 @@ type entry struct {
 	canon [32]byte
 	label string
 	short map[string]any
+	vrf   *vrfDesc
 }
 
 func newCollisionMap() *collisionMap {
@@ -575,7 +576,22 @@ func (m *collisionMap) add(b []byte, canon [32]byte, label string, short func() 
 		}
 		return nil, false
 	}
-	m.byBytes[string(b)] = entry{canon, label, short()}
+	m.byBytes[string(b)] = entry{canon: canon, label: label, short: short()}
+	return nil, false
+}
+
+func (m *collisionMap) addVRF(b []byte, canon [32]byte, label string, d *vrfDesc) (*entry, bool) {
+	if prev, ok := m.byDesc[canon]; ok && prev != string(b) {
+		return nil, true
+	}
+	m.byDesc[canon] = string(b)
+	if e, ok := m.byBytes[string(b)]; ok {
+		if e.canon != canon {
+			return &e, false
+		}
+		return nil, false
+	}
+	m.byBytes[string(b)] = entry{canon: canon, label: label, vrf: d}
 	return nil, false
 }
 
@@ -625,6 +641,10 @@ func runSign(run *vkit.Run) {
 		run.Count("sign.determinism_checks", 2)
 		var n, ntriv int64
 		perturbations(r, base, func(pt pert) {
+			if !sepOK && strings.Contains(pt.d.NN, ":") {
+				run.Count("sign.perturbations_excluded_inadmissible_network_name", 1)
+				return
+			}
 			n++
 			c := pt.d.canon()
 			if c == bc {
@@ -724,9 +744,14 @@ func runSign(run *vkit.Run) {
 			run.Violation("C14 sign: VRF input equals payload signing bytes (no domain separation)", map[string]any{"case": caseID, "vrf": d.short()})
 		}
 		bc := d.canon()
-		cm.add(vb, bc, "base", d.short)
+		d0 := d
+		cm.addVRF(vb, bc, "base", &d0)
 		var n int64
 		vrfPerturbations(r, d, sepOK, func(p vpert) {
+			if !sepOK && strings.Contains(p.d.NN, ":") {
+				run.Count("sign.perturbations_excluded_inadmissible_network_name", 1)
+				return
+			}
 			c := p.d.canon()
 			if c == bc {
 				return
@@ -738,12 +763,19 @@ func runSign(run *vkit.Run) {
 			}
 			label := p.field + "/" + p.kind
 			run.Distinct(fmt.Sprintf("vrf|%s|%s|nn=%d|beacon=%d", p.field, p.kind, len(d.NN), len(d.Beacon)))
-			if e, nondet := cm.add(b, c, label, p.d.short); nondet {
+			pd := p.d
+			if e, nondet := cm.addVRF(b, c, label, &pd); nondet {
 				run.Violation("C14 sign: same VRF description gave different bytes", map[string]any{"case": caseID, "vrf": p.d.short()})
 			} else if e != nil {
-				run.Violation(fmt.Sprintf("C14 sign: VRF input collision field=%s kind=%s: (network %q, beacon %x) and (network %q, beacon %x) at instance %d round %d give equal VRF input",
-					p.field, p.kind, p.d.NN, p.d.Beacon, d.NN, d.Beacon, d.Instance, d.Round),
-					map[string]any{"case": caseID, "a": p.d.short(), "a_label": label, "b": e.short, "b_label": e.label, "bytes": hex.EncodeToString(b)})
+				o := e.vrf
+				field, kind := p.field, p.kind
+				// classify: the two descriptions differ only in where the network name ends
+				if pd.NN != o.NN && pd.Instance == o.Instance && pd.Round == o.Round && pd.NN+":"+string(pd.Beacon) == o.NN+":"+string(o.Beacon) {
+					field, kind = "network|beacon", "boundary-move-across-separator"
+				}
+				run.Violation(fmt.Sprintf("C14 sign: VRF input collision field=%s kind=%s: (network %q, beacon %x, instance %d, round %d) and (network %q, beacon %x, instance %d, round %d) give equal VRF input",
+					field, kind, pd.NN, pd.Beacon, pd.Instance, pd.Round, o.NN, o.Beacon, o.Instance, o.Round),
+					map[string]any{"case": caseID, "a": pd.short(), "a_label": label, "b": o.short(), "b_label": e.label, "bytes": hex.EncodeToString(b)})
 			}
 		})
 		run.Eval(n)
